@@ -27,7 +27,7 @@ use rustc_middle::ty::{self, Instance, Ty, TyCtxt, TypingEnv};
 use std::collections::{BTreeMap, BTreeSet, HashSet};
 use std::fmt::Write;
 
-const SCHEMA: u32 = 3;
+const SCHEMA: u32 = 4;
 
 fn esc(s: &str) -> String {
     let mut o = String::with_capacity(s.len() + 2);
@@ -125,6 +125,23 @@ impl<'a, 'tcx> Cx<'a, 'tcx> {
                 if let ty::FnDef(did, _) = ty.kind() {
                     fnpath = esc(&self.tcx.def_path_str(*did));
                     text = String::from("fn");
+                }
+                if let mir::Const::Unevaluated(uv, _) = c.const_ {
+                    if let Some(pi) = uv.promoted {
+                        // promoted constant: append the constants of its body (string literals etc.)
+                        let pbodies = self.tcx.promoted_mir(uv.def);
+                        if let Some(pb) = pbodies.get(pi) {
+                            let mut inner: Vec<String> = Vec::new();
+                            for bb in pb.basic_blocks.iter() {
+                                for st in &bb.statements {
+                                    if let StatementKind::Assign(b) = &st.kind {
+                                        collect_consts(&b.1, &mut inner);
+                                    }
+                                }
+                            }
+                            text = format!("promoted = {}", inner.join(" ; "));
+                        }
+                    }
                 }
                 let val = match ty.kind() {
                     ty::FnDef(..) => None,
@@ -765,6 +782,28 @@ fn main() {
         args.remove(1);
     }
     rustc_driver::run_compiler(&args, &mut Cb);
+}
+
+fn collect_consts<'tcx>(rv: &Rvalue<'tcx>, out: &mut Vec<String>) {
+    let mut push = |o: &Operand<'tcx>| {
+        if let Operand::Constant(c) = o {
+            out.push(format!("{}", c.const_));
+        }
+    };
+    match rv {
+        Rvalue::Use(o, ..) => push(o),
+        Rvalue::Cast(_, o, _) => push(o),
+        Rvalue::Aggregate(_, ops) => {
+            for o in ops.iter() {
+                push(o);
+            }
+        }
+        Rvalue::BinaryOp(_, b) => {
+            push(&b.0);
+            push(&b.1);
+        }
+        _ => {}
+    }
 }
 
 fn path_skip(p: &str) -> bool {
